@@ -149,7 +149,7 @@ current_prolog_flag(Flag, Value) :- Flag == max_arity, !, Value = 255.
 current_prolog_flag(max_arity, 255).
 current_prolog_flag(Flag, Value) :- Flag == bounded, !, Value = false.
 current_prolog_flag(bounded, false).
-current_prolog_flag(Flag, Value) :- Flag == integer_rounding_function, !, Value == toward_zero.
+current_prolog_flag(Flag, Value) :- Flag == integer_rounding_function, !, Value = toward_zero.
 current_prolog_flag(integer_rounding_function, toward_zero).
 current_prolog_flag(Flag, Value) :- Flag == double_quotes, !, '$get_double_quotes'(Value).
 current_prolog_flag(double_quotes, Value) :- '$get_double_quotes'(Value).
